@@ -330,7 +330,8 @@ CHECKS = {
               "(second_run_fails_before_fix); -c passes exactly on sorted non-empty streams and the "
               "emulator's clock test accepts the result (streamCheck_iff, check_passes, emulator_accepts_sorted); no "
               "destination means an error, never success (fails_loudly). Tie: the real ovnisort [-n N], ovnisort -c, a "
-              "second and a third ovnisort run (hard requirement: exit 0, bytes unchanged) and ovniemu -l on Python-written streams, byte-compared with the Lean model (drv_ovnisort) "
+              "second and a third ovnisort run (hard requirement: exit 0, bytes unchanged), a run with every pwrite() cut short "
+              "(LD_PRELOAD shim), several streams in one trace (each must equal its single-stream result) and ovniemu -l on Python-written streams, byte-compared with the Lean model (drv_ovnisort) "
               "and checked by an independent stable-sort oracle; thorough adds all streams of <= 4 events."),
         note=TB + "; qsort is a parameter (sorted permutation; stability a named hypothesis, satisfied by insertion sort and by "
              "glibc's merge sort); -n 0 out of scope; the private mapping observes the tool's own pwrite",
